@@ -480,8 +480,10 @@ def run_machine(desc):
                                       settings=settings(max_examples=max(3, n // 3), stateful_step_count=14, deadline=None, database=None,
                                                         report_multiple_bugs=False, suppress_health_check=list(__import__('hypothesis').HealthCheck),
                                                         verbosity=__import__('hypothesis').Verbosity.quiet))
-        except AssertionError:
-            pass
+        except Exception:
+            # Hypothesis re-raises our AssertionError, or wraps it (FlakyFailure) when process-wide state made the replay differ
+            if not out.violations:
+                raise
         out.nontrivial(('machine', holder['ti'], holder['ci'], desc['seed']))
         out.nontrivial(('machine-b', holder['ti'], holder['ci'], desc['seed'] + 1))
     out.sample({'kind': 'state machine', 'rules': ['match', 'imatch', 'next*n', 'kill', 'reset', 'drop'], 'examples': n})
